@@ -32,6 +32,7 @@ def handle (j : Json) : Except String Json := do
   | "nest_statdyn" => Driver.nestStatDyn j
   | "nest_chain" => Driver.nestChain j
   | "nest_flat" => Driver.nestFlat j
+  | "nest_aff" => Driver.nestAff j
   | "cascade" => Driver.cascadeOp j
   | "legality" => Driver.legality j
   | "parse_spec" => Driver.parseSpec j
